@@ -21,7 +21,13 @@
 //! by the identity and client-CA policy in force at that moment.  Finally the signal path itself
 //! (`signal …` histories): the real `server_main` with `--tls-cert/--tls-key[/--tls-ca]`, the files
 //! rewritten with valid or broken content, SIGUSR1 sent to this process: every signal that finds
-//! valid files changes what later handshakes see, whatever failed before.
+//! valid files changes what later handshakes see, whatever failed before.  And the trust anchors
+//! themselves (`anchors …` scenarios): the platform trust store of the harness process is a CA of its
+//! own (P, through `SSL_CERT_FILE` / `SSL_CERT_DIR`: the build has the `system-roots` root source), and
+//! a `--tls-ca` file without usable certificate (DER, `TRUSTED CERTIFICATE`, key only, empty, truncated)
+//! must leave either side with NO trust anchor instead of the platform's: such a client never reaches
+//! a P-issued server, such a server (start, reload, `server_main` start and SIGUSR1) never serves a
+//! client presenting a P-issued certificate.
 //!
 //! Certificates are generated with rcgen into `/verif/.build/tmp/c17-<pid>/round<n>/` (removed at exit).
 
@@ -72,6 +78,8 @@ struct Authority {
     params: CertificateParams,
     key: KeyPair,
     pem: String,
+    /// the same certificate as DER (for the "CA saved in the wrong format" files of the anchors family)
+    der: Vec<u8>,
     /// PEM of the intermediate (appended to leaf files) when the round uses one
     chain_tail: String,
     inter: Option<(CertificateParams, KeyPair)>,
@@ -91,7 +99,7 @@ fn authority(cn: &str, round: &Round) -> Authority {
     params.key_usages = vec![KeyUsagePurpose::KeyCertSign, KeyUsagePurpose::CrlSign, KeyUsagePurpose::DigitalSignature];
     let key = KeyPair::generate_for(alg_of(round.alg)).expect("ca key");
     let cert = params.self_signed(&key).expect("ca cert");
-    let mut a = Authority { params, key, pem: cert.pem(), chain_tail: String::new(), inter: None };
+    let mut a = Authority { params, key, pem: cert.pem(), der: cert.der().to_vec(), chain_tail: String::new(), inter: None };
     if round.intermediate {
         let mut ip = CertificateParams::new(Vec::<String>::new()).expect("intermediate params");
         ip.distinguished_name = dn(&format!("{cn} intermediate"));
@@ -272,7 +280,10 @@ impl Case {
         }
         let chain_validates = match (self.srv.as_str(), self.cli_ca.as_str()) {
             ("trusted", "a" | "ab") | ("other", "ab") | ("self", "self") => true,
-            _ => false, // includes "none": this build has no built-in roots
+            // includes "none": the built-in roots of this build are the platform store, which the harness
+            // replaces by its own CA P (`install_platform_store`); P issued none of these server certificates
+            // (a build without a platform root source has no built-in roots at all)
+            _ => false,
         };
         let client_ok = self.skip || (chain_validates && name == san);
         let client_presents = self.cli_key && self.cli_cert != "none";
@@ -1940,6 +1951,664 @@ async fn signal_part(cx: &mut Ctx, pki: &Pki, usr1: &mut tokio::signal::unix::Si
 }
 
 // ---------------------------------------------------------------------------------------------
+// Trust anchors exactly as given
+// ---------------------------------------------------------------------------------------------
+//
+// The property speaks about "the roots the client was GIVEN" and "clients presenting a certificate
+// issued under THAT CA".  A `--tls-ca` file from which no certificate can be used (the CA saved as DER
+// instead of PEM, an `openssl x509 -trustout` PEM, a file that holds only a key, an empty or
+// half-written file) gives the side started with it NO trust anchor: such a client reaches no server,
+// such a server admits no client (the real code refuses to build the configuration; a reload keeps the
+// identity and client CA in force).  What must never happen is that the anchors silently become some
+// OTHER set, in particular the platform trust store.  To see that, the platform store has to hold a CA
+// under which the harness can issue certificates: `install_platform_store` generates CA "P" and points
+// `SSL_CERT_FILE` / `SSL_CERT_DIR` (honoured by rustls-native-certs, the `system-roots` root source of
+// this build) at it before any TLS configuration is built.  The oracle knows only which roots each
+// side was given (R), P being the platform CA and X a private CA:
+//   client given R, server certificate issued by P:          connects only if P ∈ R
+//   server given client CA R, client certificate issued by W: admitted only if W ∈ R;  nobody without one
+// with R = {P} / {X} for the controls, R = {} for every unusable file (after a refused reload: the
+// R in force before), and R = the platform store when no `--tls-ca` is given at all.  That last case
+// is the calibration of the family (`anchors/platform-store=present|absent`): in a build without a
+// platform root source a fall-back to it cannot be told from the empty set, and the family has no teeth.
+// Nothing of this is sent to the Lean driver: the model has no notion of an unusable CA file.
+
+struct Platform {
+    ca: Authority,
+    /// the file `SSL_CERT_FILE` points to
+    pem_path: String,
+}
+
+/// The platform trust store of this process = CA P and nothing else.  Must run before any other
+/// thread exists and before any TLS configuration is built (first thing in `main`).
+fn install_platform_store(base: &Path) -> Platform {
+    let dir = base.join("platform");
+    let certs_d = dir.join("certs.d");
+    std::fs::create_dir_all(&certs_d).expect("platform store dir");
+    let round = Round { idx: 0, alg: "p256", intermediate: false, mismatch_on_cert: false };
+    let ca = authority("CA P (platform store)", &round);
+    let pem_path = dir.join("roots.pem");
+    std::fs::write(&pem_path, &ca.pem).expect("write platform roots");
+    // SAFETY: the process is single-threaded here (no runtime, no driver yet) and nothing has read
+    // these variables so far.
+    unsafe {
+        std::env::set_var("SSL_CERT_FILE", &pem_path);
+        std::env::set_var("SSL_CERT_DIR", &certs_d);
+    }
+    Platform { ca, pem_path: pem_path.to_str().expect("utf-8 path").to_string() }
+}
+
+/// File kinds from which `--tls-ca` obtains no trust anchor.
+const UNUSABLE: [&str; 5] = ["der", "trusted-pem", "key-only", "empty", "truncated"];
+/// Proper files (controls): the platform CA itself, the private CA X.
+const A_CONTROLS: [&str; 2] = ["platform-ca", "private-ca"];
+
+fn kind_text(kind: &str) -> &'static str {
+    match kind {
+        "der" => "the private CA X saved as DER instead of PEM",
+        "trusted-pem" => "the private CA X as written by `openssl x509 -trustout` (BEGIN TRUSTED CERTIFICATE)",
+        "key-only" => "a PEM file that holds only a private key",
+        "empty" => "an empty file (bundle caught in the middle of being rewritten)",
+        "truncated" => "the private CA X's PEM cut off in the middle of the body",
+        "platform-ca" => "CA P (the CA of the platform store) as PEM",
+        "private-ca" => "the private CA X as PEM",
+        "none" => "no --tls-ca at all",
+        _ => "?",
+    }
+}
+
+/// Which of (P, X) the file gives as trust anchors, as the property has it.
+fn given(kind: &str) -> (bool, bool) {
+    match kind {
+        "platform-ca" => (true, false),
+        "private-ca" => (false, true),
+        _ => (false, false),
+    }
+}
+
+struct AnchorPki {
+    dir: PathBuf,
+    alg: &'static str,
+}
+
+impl AnchorPki {
+    fn p(&self, f: &str) -> String {
+        self.dir.join(f).to_str().expect("utf-8 path").to_string()
+    }
+    fn put(&self, f: &str, body: &[u8]) {
+        std::fs::write(self.dir.join(f), body).expect("write anchors file");
+    }
+    fn put_leaf(&self, stem: &str, l: &(String, String, Vec<u8>)) {
+        self.put(&format!("{stem}.pem"), l.0.as_bytes());
+        self.put(&format!("{stem}.key"), l.1.as_bytes());
+    }
+    fn generate(base: &Path, plat: &Platform, alg: &'static str) -> Self {
+        let dir = base.join(format!("anchors-{alg}"));
+        std::fs::create_dir_all(&dir).expect("anchors dir");
+        let ap = Self { dir, alg };
+        let x = authority("CA X (private)", &Round { idx: 0, alg, intermediate: false, mismatch_on_cert: false });
+        ap.put("ca-platform-ca", plat.ca.pem.as_bytes());
+        ap.put("ca-private-ca", x.pem.as_bytes());
+        ap.put("ca-der", &x.der);
+        ap.put("ca-trusted-pem", x.pem.replace("CERTIFICATE", "TRUSTED CERTIFICATE").as_bytes());
+        ap.put("ca-key-only", KeyPair::generate_for(alg_of(alg)).expect("key").serialize_pem().as_bytes());
+        ap.put("ca-empty", b"");
+        ap.put("ca-truncated", &x.pem.as_bytes()[..x.pem.len() / 2]);
+        ap.put_leaf("srv_p", &leaf("server leaf (P)", &[GOOD_NAME, "localhost"], true, Some(&plat.ca), alg));
+        ap.put_leaf("srv_x", &leaf("server leaf (X)", &[GOOD_NAME, "localhost"], true, Some(&x), alg));
+        ap.put_leaf("cli_p", &leaf("client leaf (P)", &["client.test"], false, Some(&plat.ca), alg));
+        ap.put_leaf("cli_x", &leaf("client leaf (X)", &["client.test"], false, Some(&x), alg));
+        ap
+    }
+    fn ca_file(&self, kind: &str) -> Option<String> {
+        (kind != "none").then(|| self.p(&format!("ca-{kind}")))
+    }
+    fn ca_bytes(&self, kind: &str) -> Vec<u8> {
+        std::fs::read(self.dir.join(format!("ca-{kind}"))).expect("read anchors CA file")
+    }
+    /// client certificate files: 'p' issued by P, 'x' issued by X, anything else: none
+    fn cli(&self, who: char) -> Option<(String, String)> {
+        matches!(who, 'p' | 'x').then(|| (self.p(&format!("cli_{who}.pem")), self.p(&format!("cli_{who}.key"))))
+    }
+}
+
+#[derive(Clone, Copy, Debug, PartialEq, Eq)]
+enum ASide {
+    /// `tls_connect` with `--tls-ca <file>` against a server whose certificate P issued
+    Client,
+    /// `make_tls_identity(.., Some(file))`, then handshakes against what it built (if anything)
+    Start,
+    /// identity built with client CA X, the file rewritten, `reload_tls_identity`
+    Reload,
+    /// the real `server_main` started with `--tls-ca <file>`
+    MainStart,
+    /// the real `server_main` started with client CA X, the file rewritten, SIGUSR1
+    MainReload,
+}
+
+impl ASide {
+    const ALL: [ASide; 5] = [ASide::Client, ASide::Start, ASide::Reload, ASide::MainStart, ASide::MainReload];
+    fn tok(self) -> &'static str {
+        match self {
+            ASide::Client => "client",
+            ASide::Start => "server-start",
+            ASide::Reload => "server-reload",
+            ASide::MainStart => "server-main-start",
+            ASide::MainReload => "server-main-reload",
+        }
+    }
+}
+
+/// `anchors <client|server-start|server-reload|server-main-start|server-main-reload> <file kind>`
+#[derive(Clone, Debug, PartialEq, Eq)]
+struct AScenario {
+    side: ASide,
+    kind: &'static str,
+}
+
+impl AScenario {
+    fn line(&self) -> String {
+        format!("anchors {} {}", self.side.tok(), self.kind)
+    }
+    fn parse(line: &str) -> Option<Self> {
+        let t: Vec<&str> = line.split_whitespace().collect();
+        if t.len() != 3 || t[0] != "anchors" {
+            return None;
+        }
+        let side = ASide::ALL.into_iter().find(|s| s.tok() == t[1])?;
+        let kind = UNUSABLE.into_iter().chain(A_CONTROLS).chain((side == ASide::Client).then_some("none")).find(|k| *k == t[2])?;
+        Some(Self { side, kind })
+    }
+}
+
+#[derive(Clone, Debug, Default)]
+struct ARun {
+    /// what the property forbids: (class, description)
+    violations: Vec<(String, String)>,
+    /// a control did not behave as the scenario presupposes (calibration of the harness, not a verdict)
+    control: Option<String>,
+    infra: Option<String>,
+    /// bucket for the distribution
+    outcome: String,
+    /// `client none` only: did the client reach the P-issued server
+    connected: Option<bool>,
+    observed: Vec<String>,
+}
+
+/// One verified-or-not handshake over an in-memory pipe: the real client entry point against an acceptor
+/// built from `cfg`, one byte each way.  Ok(None) = completed, Ok(Some(why)) = failed, Err = no outcome.
+async fn anchors_handshake(
+    cfg: Arc<rustls::ServerConfig>,
+    cli: Option<(String, String)>,
+    ca: Option<String>,
+    skip: bool,
+) -> Result<Option<String>, String> {
+    let acceptor = tokio_rustls::TlsAcceptor::from(cfg);
+    let (cio, sio) = tokio::io::duplex(1 << 16);
+    let server = tokio::spawn(async move {
+        let mut s = acceptor.accept(sio).await?;
+        let mut b = [0u8; 1];
+        s.read_exact(&mut b).await?;
+        s.write_all(&[b[0] ^ 0xff]).await?;
+        s.flush().await?;
+        let _ = s.read(&mut b).await; // until the client closes
+        Ok::<(), std::io::Error>(())
+    });
+    let stop = server.abort_handle();
+    let (c, k) = cli.unzip();
+    let client = async {
+        let mut st = tls_connect(cio, GOOD_NAME, c.as_deref(), k.as_deref(), ca.as_deref(), skip)
+            .await
+            .map_err(|e| format!("tls_connect: {e}"))?;
+        let r = exchange(&mut st, 0x5a).await;
+        let _ = st.shutdown().await;
+        match r {
+            Ok(0xa5) => Ok(()),
+            Ok(b) => Err(format!("wrong answer byte {b:#x}")),
+            Err(e) => Err(format!("first exchange: {e}")),
+        }
+    };
+    let both = async {
+        let cr = client.await;
+        let sr = server.await;
+        (cr, sr)
+    };
+    match tokio::time::timeout(CASE_TIMEOUT, both).await {
+        Err(_) => {
+            stop.abort();
+            Err(format!("no outcome within {} s (hang)", CASE_TIMEOUT.as_secs()))
+        }
+        Ok((Ok(()), Ok(Ok(())))) => Ok(None),
+        Ok((cr, sr)) => Ok(Some(format!(
+            "client: {}; server: {}",
+            cr.err().unwrap_or_else(|| "done".into()),
+            match sr {
+                Ok(Ok(())) => "done".to_string(),
+                Ok(Err(e)) => format!("{e}"),
+                Err(e) => format!("task: {e}"),
+            }
+        ))),
+    }
+}
+
+/// Judge who a server admits against the anchors it was given: `adm` = (P-client, X-client, no certificate).
+fn judge_admissions(out: &mut ARun, sc: &AScenario, when: &str, r_given: (bool, bool), r_text: &str, adm: [Result<bool, String>; 3]) {
+    let whos = [("a certificate issued by CA P (platform store)", r_given.0, "server-admits-platform-client"),
+        ("a certificate issued by the private CA X", r_given.1, "server-admits-foreign-client"),
+        ("no certificate", false, "server-admits-anonymous-client")];
+    for ((who, allowed, class), a) in whos.into_iter().zip(adm) {
+        match a {
+            Err(e) => out.violations.push(("server-hangs".into(), format!("{when}: a client presenting {who}: {e}"))),
+            Ok(true) if !allowed => out.violations.push((class.into(), format!(
+                "{when}: the server's client CA file is {} ({r_text}); a client presenting {who} completed the handshake and was \
+                 served, although that file does not cover it", kind_text(sc.kind)))),
+            Ok(false) if allowed && A_CONTROLS.contains(&sc.kind) && out.control.is_none() =>
+                out.control = Some(format!("{when}: a client presenting {who} was refused by a server whose client CA file is {}",
+                    kind_text(sc.kind))),
+            Ok(a) => out.observed.push(format!("{when}: client with {who}: {}", if a { "admitted" } else { "refused" })),
+        }
+    }
+}
+
+async fn admissions_of(ap: &AnchorPki, cfg: &Arc<rustls::ServerConfig>) -> [Result<bool, String>; 3] {
+    let mut v = vec![];
+    for who in ['p', 'x', '-'] {
+        v.push(anchors_handshake(cfg.clone(), ap.cli(who), None, true).await.map(|r| r.is_none()));
+    }
+    v.try_into().expect("three")
+}
+
+static ANCHOR_WORLDS: std::sync::atomic::AtomicUsize = std::sync::atomic::AtomicUsize::new(0);
+
+/// In-memory scenarios (`client`, `server-start`, `server-reload`).
+async fn run_anchor_mem(ap: &AnchorPki, sc: &AScenario) -> ARun {
+    let mut out = ARun::default();
+    let r_text = |g: (bool, bool)| match g {
+        (true, _) => "trust anchors given: CA P",
+        (_, true) => "trust anchors given: the private CA X only",
+        _ => "no usable certificate in it: no trust anchor given",
+    };
+    match sc.side {
+        ASide::Client => {
+            let cfg = match make_server_config(&ap.p("srv_p.pem"), &ap.p("srv_p.key"), None).await {
+                Ok(c) => Arc::new(c),
+                Err(e) => {
+                    out.infra = Some(format!("make_server_config for the P-issued server: {e}"));
+                    return out;
+                }
+            };
+            match anchors_handshake(cfg, None, ap.ca_file(sc.kind), false).await {
+                Err(e) => {
+                    out.outcome = "hang".into();
+                    out.violations.push(("client-hangs".into(), format!("client with --tls-ca = {}: {e}", kind_text(sc.kind))));
+                }
+                Ok(r) => {
+                    let connected = r.is_none();
+                    out.connected = Some(connected);
+                    out.outcome = if connected { "connects".into() } else { "refused".into() };
+                    out.observed.push(match &r {
+                        None => "handshake completed, one byte each way".to_string(),
+                        Some(why) => format!("no connection ({why})"),
+                    });
+                    if sc.kind == "none" {
+                        // calibration: the built-in roots of this build, whatever they are
+                    } else if connected && !given(sc.kind).0 {
+                        out.violations.push(("client-accepts-platform-ca".into(), format!(
+                            "a client started with --tls-ca = {} ({}), verification on, completed the handshake with a server whose \
+                             certificate was issued by CA P; P is not in that file, it is the CA of the platform trust store \
+                             (SSL_CERT_FILE)", kind_text(sc.kind), r_text(given(sc.kind)))));
+                    } else if !connected && given(sc.kind).0 {
+                        out.control = Some(format!("a client given CA P as --tls-ca does not reach the P-issued server: {r:?}"));
+                    }
+                }
+            }
+        }
+        ASide::Start => {
+            match make_tls_identity(&ap.p("srv_x.pem"), &ap.p("srv_x.key"), ap.ca_file(sc.kind).as_deref()).await {
+                Err(e) => {
+                    out.outcome = "refused-to-start".into();
+                    out.observed.push(format!("make_tls_identity: {e}"));
+                    if A_CONTROLS.contains(&sc.kind) {
+                        out.control = Some(format!("no identity from a proper client CA file: {e}"));
+                    }
+                }
+                Ok(id) => {
+                    out.outcome = "starts".into();
+                    let adm = admissions_of(ap, &id.load_full()).await;
+                    judge_admissions(&mut out, sc, "server started with this client CA file", given(sc.kind), r_text(given(sc.kind)), adm);
+                }
+            }
+        }
+        ASide::Reload => {
+            let dir = ap.dir.join(format!("reload-{}", ANCHOR_WORLDS.fetch_add(1, Ordering::SeqCst)));
+            std::fs::create_dir_all(&dir).expect("anchors reload dir");
+            let path = |f: &str| dir.join(f).to_str().expect("path").to_string();
+            let (cert, keyp, cap) = (path("cert.pem"), path("privkey.pem"), path("client-ca.pem"));
+            let ids: Vec<_> = (0..2).map(|i| leaf(&format!("anchors identity {i}"), &["localhost"], true, None, ap.alg)).collect();
+            std::fs::write(&cert, &ids[0].0).expect("write cert");
+            std::fs::write(&keyp, &ids[0].1).expect("write key");
+            std::fs::write(&cap, ap.ca_bytes("private-ca")).expect("write client CA");
+            let id = match make_tls_identity(&cert, &keyp, Some(&cap)).await {
+                Ok(id) => id,
+                Err(e) => {
+                    out.infra = Some(format!("make_tls_identity with the proper client CA X: {e}"));
+                    return out;
+                }
+            };
+            let before = AScenario { side: sc.side, kind: "private-ca" };
+            let adm = admissions_of(ap, &id.load_full()).await;
+            judge_admissions(&mut out, &before, "before the reload", (false, true), r_text((false, true)), adm);
+            // the file is replaced, a new certificate is in place, the identity is reloaded
+            std::fs::write(&cert, &ids[1].0).expect("write cert");
+            std::fs::write(&keyp, &ids[1].1).expect("write key");
+            std::fs::write(&cap, ap.ca_bytes(sc.kind)).expect("write client CA");
+            let reloaded = reload_tls_identity(&id, &cert, &keyp, Some(&cap)).await;
+            let adm = admissions_of(ap, &id.load_full()).await;
+            match reloaded {
+                Err(e) => {
+                    // the client CA in force is still X
+                    out.outcome = "reload-refused".into();
+                    out.observed.push(format!("reload_tls_identity: {e}"));
+                    if A_CONTROLS.contains(&sc.kind) {
+                        out.control = Some(format!("reload with a proper client CA file refused: {e}"));
+                    }
+                    let keep = AScenario { side: sc.side, kind: sc.kind };
+                    // judged against the anchors in force before; an X client refused now is no violation
+                    let mut tmp = ARun::default();
+                    judge_admissions(&mut tmp, &keep, "after the refused reload", (false, true), "the reload was refused; the client CA in force is still X", adm);
+                    out.violations.extend(tmp.violations);
+                    out.observed.extend(tmp.observed);
+                }
+                Ok(()) => {
+                    out.outcome = "reload-applied".into();
+                    judge_admissions(&mut out, sc, "after the reload", given(sc.kind), r_text(given(sc.kind)), adm);
+                }
+            }
+        }
+        ASide::MainStart | ASide::MainReload => unreachable!("server_main scenarios run in run_anchor_main"),
+    }
+    out
+}
+
+/// `server_main` scenarios: the real server with `--tls-cert/--tls-key/--tls-ca`, clients over TCP.
+async fn run_anchor_main(ap: &AnchorPki, sc: &AScenario, usr1: &mut tokio::signal::unix::Signal) -> ARun {
+    use rusty_penguin_lib::arg::ServerArgs;
+    let mut out = ARun::default();
+    let dir = ap.dir.join(format!("main-{}", ANCHOR_WORLDS.fetch_add(1, Ordering::SeqCst)));
+    std::fs::create_dir_all(&dir).expect("anchors main dir");
+    let path = |f: &str| dir.join(f).to_str().expect("path").to_string();
+    let (cert, keyp, cap) = (path("cert.pem"), path("privkey.pem"), path("client-ca.pem"));
+    let ids: Vec<_> = (0..2).map(|i| leaf(&format!("anchors identity {i}"), &["localhost"], true, None, "p256")).collect();
+    std::fs::write(&cert, &ids[0].0).expect("write cert");
+    std::fs::write(&keyp, &ids[0].1).expect("write key");
+    let start_kind = if sc.side == ASide::MainStart { sc.kind } else { "private-ca" };
+    std::fs::write(&cap, ap.ca_bytes(start_kind)).expect("write client CA");
+    let port = match std::net::TcpListener::bind("127.0.0.1:0").and_then(|l| l.local_addr()) {
+        Ok(a) => a.port(),
+        Err(e) => {
+            out.infra = Some(format!("no free port: {e}"));
+            return out;
+        }
+    };
+    let args: &'static ServerArgs = Box::leak(Box::new(ServerArgs {
+        host: vec!["127.0.0.1".to_string()],
+        port: vec![port],
+        not_found_resp: "404".to_string(),
+        timeout: penguin_mux::timing::OptionalDuration::from_secs(120),
+        tls_cert: Some(cert.clone()),
+        tls_key: Some(keyp.clone()),
+        tls_ca: Some(cap.clone()),
+        ..Default::default()
+    }));
+    let server = tokio::spawn(rusty_penguin_lib::server::server_main(args));
+    // index of the identity an anonymous client is shown (its side of a TLS 1.3 handshake completes
+    // also when the server is going to refuse it for lack of a certificate)
+    let shown = |port: u16| {
+        let ids = &ids;
+        async move {
+            let io = async {
+                let tcp = tokio::net::TcpStream::connect(("127.0.0.1", port)).await.ok()?;
+                let s = tls_connect(tcp, "localhost", None, None, None, true).await.ok()?;
+                let d = peer_leaf(&s)?;
+                ids.iter().position(|l| l.2 == d)
+            };
+            tokio::time::timeout(Duration::from_secs(5), io).await.ok().flatten()
+        }
+    };
+    // is a client of this kind served?  (kept open: `established`)
+    async fn served(ap: &AnchorPki, port: u16, who: char) -> Result<ClientStream, String> {
+        let (c, k) = ap.cli(who).unzip();
+        let io = async {
+            let tcp = tokio::net::TcpStream::connect(("127.0.0.1", port)).await.map_err(|e| format!("tcp: {e}"))?;
+            let mut s = tls_connect(tcp, "localhost", c.as_deref(), k.as_deref(), None, true).await.map_err(|e| format!("tls_connect: {e}"))?;
+            health(&mut s).await?;
+            Ok::<ClientStream, String>(s)
+        };
+        tokio::time::timeout(Duration::from_secs(8), io).await.unwrap_or_else(|_| Err("timed out".into()))
+    }
+    async fn admissions(ap: &AnchorPki, port: u16) -> [Result<bool, String>; 3] {
+        let mut v = vec![];
+        for who in ['p', 'x', '-'] {
+            v.push(Ok(served(ap, port, who).await.is_ok()));
+        }
+        v.try_into().expect("three")
+    }
+    let r_text = |g: (bool, bool)| match g {
+        (true, _) => "trust anchors given: CA P",
+        (_, true) => "trust anchors given: the private CA X only",
+        _ => "no usable certificate in it: no trust anchor given",
+    };
+    // start-up: either the server comes up with identity 0 or `server_main` ends with an error
+    let patience = if sc.side == ASide::MainStart && !A_CONTROLS.contains(&sc.kind) { 5 } else { 15 };
+    let deadline = tokio::time::Instant::now() + Duration::from_secs(patience);
+    let up = loop {
+        if shown(port).await == Some(0) {
+            break true;
+        }
+        if server.is_finished() || tokio::time::Instant::now() >= deadline {
+            break false;
+        }
+        tokio::time::sleep(Duration::from_millis(50)).await;
+    };
+    if sc.side == ASide::MainStart {
+        if up {
+            out.outcome = "starts".into();
+            let adm = admissions(ap, port).await;
+            judge_admissions(&mut out, sc, "server_main started with this --tls-ca", given(sc.kind), r_text(given(sc.kind)), adm);
+        } else if server.is_finished() {
+            out.outcome = "refused-to-start".into();
+            out.observed.push(format!("server_main ended: {:?}", server.await));
+            if A_CONTROLS.contains(&sc.kind) {
+                out.control = Some("server_main does not start with a proper client CA file".into());
+            }
+            return out;
+        } else {
+            out.outcome = "not-serving".into();
+            out.observed.push(format!("no handshake completes within {patience} s of start-up"));
+            if A_CONTROLS.contains(&sc.kind) {
+                out.control = Some("server_main does not serve with a proper client CA file".into());
+            }
+        }
+        server.abort();
+        return out;
+    }
+    // run-time variant
+    if !up {
+        out.infra = Some(match server.is_finished() {
+            true => format!("server_main (client CA X) ended at start-up: {:?}", server.await),
+            false => "the server (client CA X) did not come up within 15 s".into(),
+        });
+        return out;
+    }
+    let before = AScenario { side: sc.side, kind: "private-ca" };
+    let mut established = served(ap, port, 'x').await.ok();
+    let adm = admissions(ap, port).await;
+    judge_admissions(&mut out, &before, "before the SIGUSR1", (false, true), r_text((false, true)), adm);
+    if established.is_none() && out.control.is_none() {
+        out.control = Some("before the SIGUSR1 a client of the private CA X is not served".into());
+    }
+    if out.control.is_some() || !out.violations.is_empty() {
+        server.abort();
+        return out;
+    }
+    std::fs::write(&cert, &ids[1].0).expect("write cert");
+    std::fs::write(&keyp, &ids[1].1).expect("write key");
+    std::fs::write(&cap, ap.ca_bytes(sc.kind)).expect("write client CA");
+    if let Err(e) = send_sigusr1_to_self() {
+        out.infra = Some(e);
+        server.abort();
+        return out;
+    }
+    if !matches!(tokio::time::timeout(Duration::from_secs(10), usr1.recv()).await, Ok(Some(()))) {
+        out.infra = Some("SIGUSR1 was sent but not delivered to this process within 10 s".into());
+        server.abort();
+        return out;
+    }
+    let t_sig = tokio::time::Instant::now();
+    if A_CONTROLS.contains(&sc.kind) {
+        // a proper file: the reload is applied (the signal family's business; here only as a control)
+        while shown(port).await != Some(1) && t_sig.elapsed() < SIGNAL_PATIENCE {
+            tokio::time::sleep(Duration::from_millis(100)).await;
+        }
+        if shown(port).await != Some(1) {
+            out.control = Some(format!("SIGUSR1 with a proper client CA file was not applied within {} s", SIGNAL_PATIENCE.as_secs()));
+        } else {
+            out.outcome = "reload-applied".into();
+            let adm = admissions(ap, port).await;
+            judge_admissions(&mut out, sc, "after the SIGUSR1", given(sc.kind), r_text(given(sc.kind)), adm);
+        }
+    } else {
+        // an unusable file: whatever the server makes of it, for the whole settle time no client of P
+        // (and nobody without certificate) may be served
+        loop {
+            let p = served(ap, port, 'p').await.is_ok();
+            let anon = served(ap, port, '-').await.is_ok();
+            if p || anon || t_sig.elapsed() >= SIGNAL_SETTLE {
+                let x = served(ap, port, 'x').await.is_ok();
+                let id = shown(port).await;
+                out.outcome = match (id, x) {
+                    (Some(0), true) => "reload-refused/old-identity-and-client-ca-kept".into(),
+                    (Some(0), false) => "reload-refused/old-identity/x-refused".into(),
+                    (Some(1), _) => "reload-applied".into(),
+                    _ => "no-handshake-afterwards".into(),
+                };
+                // after a refused reload the client CA in force is still X; after an applied one it is
+                // what the file gives: nothing.  Either way neither P nor an anonymous client is covered.
+                let (g, txt) = if id == Some(1) {
+                    (given(sc.kind), r_text(given(sc.kind)))
+                } else {
+                    ((false, true), "the identity in force is still the one with client CA X")
+                };
+                let mut tmp = ARun::default();
+                judge_admissions(&mut tmp, sc, &format!("{} ms after the SIGUSR1 (identity shown: {id:?})", t_sig.elapsed().as_millis()),
+                    g, txt, [Ok(p), Ok(x), Ok(anon)]);
+                out.violations.extend(tmp.violations);
+                out.observed.extend(tmp.observed);
+                break;
+            }
+            tokio::time::sleep(Duration::from_millis(100)).await;
+        }
+    }
+    // the connection established before the signal is not disturbed
+    if let Some(s) = established.as_mut() {
+        if let Err(e) = health(s).await {
+            out.violations.push(("established-disturbed".into(),
+                format!("after the SIGUSR1 the connection of the X client established before it stopped answering: {e}")));
+        }
+    }
+    server.abort();
+    out
+}
+
+async fn run_anchor(ap: &AnchorPki, sc: &AScenario, usr1: &mut tokio::signal::unix::Signal) -> ARun {
+    match sc.side {
+        ASide::Client | ASide::Start | ASide::Reload => run_anchor_mem(ap, sc).await,
+        ASide::MainStart | ASide::MainReload => run_anchor_main(ap, sc, usr1).await,
+    }
+}
+
+/// The calibration: does a client WITHOUT `--tls-ca` reach a server whose certificate CA P issued, i.e.
+/// do the built-in roots of this build come from the platform store the harness installed?
+async fn anchors_calibrate(cx: &mut Ctx, ap: &AnchorPki) -> bool {
+    let sc = AScenario { side: ASide::Client, kind: "none" };
+    let run = run_anchor_mem(ap, &sc).await;
+    cx.rep.case(Some(fnv(format!("{} [calibration]", sc.line()).as_bytes())));
+    let present = run.connected == Some(true);
+    cx.rep.count(if present { "anchors/platform-store=present" } else { "anchors/platform-store=absent" });
+    if let Some(why) = run.infra.or_else(|| run.violations.first().map(|(_, d)| d.clone())) {
+        cx.rep.fail(FailKind::Model, "anchors could-not-run :: calibration", &why, json!({"op": "anchors", "line": sc.line(), "alg": ap.alg}));
+    }
+    present
+}
+
+fn anchors_scenarios(tier: Tier, rng: &mut Rng) -> Vec<AScenario> {
+    let mut v = vec![];
+    let all: Vec<&'static str> = A_CONTROLS.into_iter().chain(UNUSABLE).collect();
+    for side in [ASide::Client, ASide::Start, ASide::Reload] {
+        v.extend(all.iter().map(|k| AScenario { side, kind: k }));
+    }
+    match tier {
+        Tier::Quick => {
+            // the real server_main: one start and two SIGUSR1 worlds, the kinds picked by the seed
+            let a = rng.below(UNUSABLE.len() as u64) as usize;
+            let b = (a + 1 + rng.below(UNUSABLE.len() as u64 - 1) as usize) % UNUSABLE.len();
+            v.push(AScenario { side: ASide::MainStart, kind: UNUSABLE[b] });
+            v.push(AScenario { side: ASide::MainReload, kind: UNUSABLE[a] });
+            v.push(AScenario { side: ASide::MainReload, kind: UNUSABLE[b] });
+        }
+        Tier::Thorough => {
+            for side in [ASide::MainStart, ASide::MainReload] {
+                v.extend(all.iter().map(|k| AScenario { side, kind: k }));
+            }
+        }
+    }
+    v
+}
+
+async fn anchors_part(cx: &mut Ctx, ap: &AnchorPki, usr1: &mut tokio::signal::unix::Signal, scs: &[AScenario], platform_present: bool,
+    done: &mut Vec<String>) {
+    for sc in scs {
+        let line = sc.line();
+        let tail = format!("{line} [{}]", ap.alg);
+        if done.contains(&tail) {
+            continue;
+        }
+        done.push(tail.clone());
+        cx.rep.case(Some(fnv(tail.as_bytes())));
+        let t = std::time::Instant::now();
+        let mut run = run_anchor(ap, sc, usr1).await;
+        if run.infra.is_some() || run.control.is_some() || !run.violations.is_empty() {
+            // once more on its own before anything is reported
+            cx.rep.count("anchors/re-run");
+            run = run_anchor(ap, sc, usr1).await;
+        }
+        cx.rep.count_n("anchors/ms", t.elapsed().as_millis() as u64);
+        cx.rep.count(&format!("anchors/{}/{}/{}", sc.side.tok(),
+            if UNUSABLE.contains(&sc.kind) { "unusable-file" } else { sc.kind }, run.outcome));
+        let replay = json!({"op": "anchors", "line": line, "alg": ap.alg, "file": kind_text(sc.kind),
+            "platform_store": if platform_present { "CA P through SSL_CERT_FILE (calibration: a client without --tls-ca reaches a P-issued server)" }
+                else { "absent in this build (a client without --tls-ca does not reach a P-issued server)" },
+            "outcome": run.outcome, "observed": run.observed});
+        if let Some(why) = &run.infra {
+            cx.rep.fail(FailKind::Model, &format!("anchors could-not-run :: {tail}"), why, replay);
+            continue;
+        }
+        if let Some(why) = &run.control {
+            cx.rep.fail(FailKind::Model, &format!("anchors control-failed :: {tail}"), why, replay.clone());
+        }
+        for (class, desc) in &run.violations {
+            let key = if sc.side == ASide::Client { format!("anchors {class} :: {}", sc.kind) } else { format!("anchors {class} :: {} [{}]", sc.kind, sc.side.tok()) };
+            cx.rep.fail(FailKind::Impl, &key, desc, replay.clone());
+        }
+        if run.violations.is_empty() && UNUSABLE.contains(&sc.kind) && cx.rep.samples.len() < 16
+            && cx.rep.samples.iter().filter(|s| s.get("anchors").is_some()).count() < 4
+        {
+            cx.rep.sample(json!({"anchors": line, "outcome": run.outcome, "observed": run.observed}));
+        }
+    }
+}
+
+// ---------------------------------------------------------------------------------------------
 
 fn rounds_for(args: &Args, rng: &mut Rng) -> Vec<Round> {
     let mut v = vec![Round { idx: 0, alg: "p256", intermediate: false, mismatch_on_cert: false }];
@@ -1976,7 +2645,7 @@ fn base_dir() -> PathBuf {
     PathBuf::from(format!("/verif/.build/tmp/c17-{}", std::process::id()))
 }
 
-fn replay(path: &str) -> i32 {
+fn replay(path: &str, platform: &Platform) -> i32 {
     let text = std::fs::read_to_string(path).expect("read replay file");
     let v: Value = serde_json::from_str(&text).expect("replay json");
     let rp = if v.get("replay").is_some() { &v["replay"] } else { &v };
@@ -2073,6 +2742,43 @@ fn replay(path: &str) -> i32 {
                 1
             }
         }
+        Some("anchors") => {
+            let Some(sc) = rp["line"].as_str().and_then(AScenario::parse) else {
+                println!("unreadable anchors scenario");
+                return 2;
+            };
+            let alg = ["p256", "p384", "ed25519", "rsa"].into_iter().find(|a| Some(*a) == rp["alg"].as_str()).unwrap_or("p256");
+            let ap = AnchorPki::generate(&base, platform, alg);
+            println!("scenario  {}   (--tls-ca file: {})", sc.line(), kind_text(sc.kind));
+            let (present, run) = rt.block_on(async {
+                let mut usr1 = tokio::signal::unix::signal(tokio::signal::unix::SignalKind::user_defined1()).expect("register SIGUSR1");
+                let cal = run_anchor_mem(&ap, &AScenario { side: ASide::Client, kind: "none" }).await;
+                let mut run = run_anchor(&ap, &sc, &mut usr1).await;
+                if run.infra.is_some() || run.control.is_some() || !run.violations.is_empty() {
+                    println!("first run fails; running once more");
+                    run = run_anchor(&ap, &sc, &mut usr1).await;
+                }
+                (cal.connected == Some(true), run)
+            });
+            println!("platform  SSL_CERT_FILE={} (CA P); a client without --tls-ca {} a P-issued server", platform.pem_path,
+                if present { "reaches" } else { "does not reach" });
+            println!("outcome   {}", run.outcome);
+            for o in &run.observed {
+                println!("observed  {o}");
+            }
+            if let Some(why) = run.infra.as_ref().or(run.control.as_ref()) {
+                println!("could not run: {why}");
+                2
+            } else if run.violations.is_empty() {
+                println!("holds on this input");
+                0
+            } else {
+                for (k, d) in &run.violations {
+                    println!("FAILS [{k}]: {d}");
+                }
+                1
+            }
+        }
         Some(op @ ("reload" | "name" | "asks")) => {
             let round = Round { idx: 0, alg: "p256", intermediate: false, mismatch_on_cert: false };
             let pki = Pki::generate(&base, &round);
@@ -2102,29 +2808,39 @@ fn replay(path: &str) -> i32 {
 fn main() {
     pvhf::quiet_panics();
     let args = Args::parse();
+    let base = base_dir();
+    // before anything else (single-threaded, no TLS configuration built yet): the platform trust store of
+    // this process is CA P of the harness (see the anchors family)
+    let platform = install_platform_store(&base);
     tls::init_crypto_provider().expect("install the rustls crypto provider");
     if let Some(p) = &args.replay {
-        std::process::exit(replay(p));
+        std::process::exit(replay(p, &platform));
     }
     let rule = "every combination of the property's quantifier {server cert: trusted CA/other CA/self-signed} x {name \
 matches/differs} x {skip-verify} x {client cert: none/trusted CA/other CA} x {server client-CA set/not} (72) as a real \
 handshake per PKI round (key algorithm, direct or via an intermediate, name mismatch on the request or on the \
 certificate), plus configuration corner cases, CertificateRequest probes, the client's server-name choice, the reload \
 scenario, histories of reloads with long-lived clients that keep their TLS session store (every client-CA transition) and \
-histories of SIGUSR1-driven reloads (valid and broken files) against the real server_main; every case is non-trivial (a real handshake or configuration attempt); distinct by (round, configuration)";
+histories of SIGUSR1-driven reloads (valid and broken files) against the real server_main, and --tls-ca files without \
+usable certificate (DER, TRUSTED CERTIFICATE, key only, empty, truncated) on either side with the platform trust store under the \
+harness's control (client, server start, reload, server_main start and SIGUSR1); every case is non-trivial (a real handshake or configuration attempt); distinct by (round, configuration)";
     let mut cx = Ctx {
         rep: Report::new("tls", &args, rule),
         drv: args.driver.as_deref().map(|p| Driver::spawn(p, &[]).expect("start Lean driver")),
     };
     let mut rng = Rng::new(args.seed);
     let rt = tokio::runtime::Builder::new_multi_thread().worker_threads(4).enable_all().build().expect("runtime");
-    let base = base_dir();
     let rounds = rounds_for(&args, &mut rng);
+    let mut platform_present = false;
     let t0 = std::time::Instant::now();
     rt.block_on(async {
         // before any SIGUSR1 can be sent: a handler of our own (see the signal family)
         let mut usr1 = tokio::signal::unix::signal(tokio::signal::unix::SignalKind::user_defined1()).expect("register SIGUSR1");
         let mut signal_done: Vec<String> = vec![];
+        // the anchors family: its PKI (under the platform CA P and a private CA X) and its calibration
+        let ap = AnchorPki::generate(&base, &platform, "p256");
+        platform_present = anchors_calibrate(&mut cx, &ap).await;
+        let mut anchors_done: Vec<String> = vec![];
         // corpus first: `hs <json case>` lines, run on the PKI of round 0
         let corpus = pvhf::corpus_files(args.corpus.as_deref());
         if !corpus.is_empty() {
@@ -2146,6 +2862,9 @@ histories of SIGUSR1-driven reloads (valid and broken files) against the real se
                 // `signal …` lines: SIGUSR1 histories against the real `server_main`
                 let sscs: Vec<SScenario> = text.lines().filter_map(SScenario::parse).collect();
                 signal_part(&mut cx, &pki, &mut usr1, &sscs, &mut signal_done).await;
+                // `anchors …` lines: trust anchors exactly as given
+                let ascs: Vec<AScenario> = text.lines().filter_map(AScenario::parse).collect();
+                anchors_part(&mut cx, &ap, &mut usr1, &ascs, platform_present, &mut anchors_done).await;
             }
         }
         for round in &rounds {
@@ -2179,6 +2898,18 @@ histories of SIGUSR1-driven reloads (valid and broken files) against the real se
                     sscs.extend((0..8).map(|_| signal_random(&mut rng)));
                 }
                 signal_part(&mut cx, &pki, &mut usr1, &sscs, &mut signal_done).await;
+                // trust anchors exactly as given: every file kind x {client, server start, server reload}
+                // in memory, the real `server_main` (start and SIGUSR1) for a few kinds in quick and for
+                // all of them in thorough; thorough repeats the in-memory part with another key algorithm
+                let ascs = anchors_scenarios(args.tier, &mut rng);
+                anchors_part(&mut cx, &ap, &mut usr1, &ascs, platform_present, &mut anchors_done).await;
+                if args.tier == Tier::Thorough {
+                    for alg in ["p384", "ed25519", "rsa"] {
+                        let ap2 = AnchorPki::generate(&base, &platform, alg);
+                        let mem: Vec<AScenario> = ascs.iter().filter(|s| matches!(s.side, ASide::Client | ASide::Start | ASide::Reload)).cloned().collect();
+                        anchors_part(&mut cx, &ap2, &mut usr1, &mem, platform_present, &mut anchors_done).await;
+                    }
+                }
             }
             cx.rep.count(&format!("round/{}{}{}", round.alg, if round.intermediate { "+intermediate" } else { "" },
                 if round.mismatch_on_cert { "+san-mismatch" } else { "" }));
@@ -2192,6 +2923,17 @@ handshake are rustls/webpki (trusted), the model covers the configuration decisi
         rounds.len(),
         extras().len(),
         t0.elapsed().as_secs_f64()
+    ));
+    cx.rep.notes.push(format!(
+        "anchors family (oracle only, not sent to the model): the platform trust store of this process is the harness CA P \
+(SSL_CERT_FILE={}, SSL_CERT_DIR=empty directory, set before any TLS configuration is built); calibration: a client without \
+--tls-ca {} a server whose certificate P issued, so the build's platform root source is {}; a --tls-ca file without usable \
+certificate ({}) must give no trust anchor at all: such a client never reaches the P-issued server, such a server (start, \
+reload_tls_identity, server_main start, server_main + SIGUSR1) never serves a client presenting a P-issued certificate",
+        platform.pem_path,
+        if platform_present { "reaches" } else { "does NOT reach" },
+        if platform_present { "present and under the harness's control" } else { "ABSENT: a fall-back to the platform store cannot be observed in this build" },
+        UNUSABLE.join(", ")
     ));
     if let Some(d) = &cx.drv {
         cx.rep.notes.push(format!("driver lines: {}", d.lines));
